@@ -283,7 +283,7 @@ class G:
                 "order": order, "limit": limit, "offset": offset, "setop": setop}
 
     def dml(self):
-        kind = self.d(st.sampled_from(["insert", "insert", "insert_select", "upsert", "update", "update", "update_from", "delete"]))
+        kind = self.d(st.sampled_from(["insert", "insert", "insert_select", "upsert", "update", "update", "update_from", "update_join", "delete"]))
         if kind in ("insert", "upsert"):
             t = "t3" if kind == "upsert" else self.d(st.sampled_from(["t1", "t3"]))
             cols = TABLES[t]
@@ -313,12 +313,12 @@ class G:
             sel = self.select(depth=0, ncols=2, want_int=True, allow_setop=False)
             sel["order"], sel["limit"], sel["offset"], sel["distinct"] = [], None, None, False
             return {"kind": kind, "table": "t3", "columns": ["k", "v"] if self.d(st.booleans()) else None, "select": sel}
-        if kind in ("update", "update_from"):
+        if kind in ("update", "update_from", "update_join"):
             t = self.d(st.sampled_from(["t1", "t2"]))
             tgt = {"key": self.key(), "table": t, "alias": None}
             srcs = [tgt]
             frm = None
-            if kind == "update_from":
+            if kind in ("update_from", "update_join"):
                 frm = {"key": self.key(), "table": "t3" if self.d(st.booleans()) else ("t2" if t == "t1" else "t1"), "alias": None}
                 srcs.append(frm)
             scope = [(s["key"], self.cols_of(s)) for s in srcs]
@@ -326,9 +326,13 @@ class G:
             for c in self.d(st.lists(st.sampled_from(INTCOLS[t][1:]), min_size=1, max_size=2, unique=True)):
                 sets.append([c, self.ne(scope, 2)])
             where = self.be(scope, 2, allow_sub=True) if self.d(st.integers(0, 9)) < 8 else None
-            if frm is not None and where is None:
+            if frm is not None and where is None and kind == "update_from":
                 where = ["eq", ["col", tgt["key"], INTCOLS[t][0]], self.icol([(frm["key"], self.cols_of(frm))])]
-            return {"kind": kind, "target": tgt, "from": frm, "sets": sets, "where": where}
+            on = None
+            if kind == "update_join":
+                # update(t).join(u).on(t.pk = u.col): the joined table supplies values, the ON condition selects the rows
+                on = ["eq", ["col", tgt["key"], INTCOLS[t][0]], self.icol([(frm["key"], self.cols_of(frm))])]
+            return {"kind": kind, "target": tgt, "from": frm, "sets": sets, "where": where, "on": on}
         t = self.d(st.sampled_from(["t1", "t2", "t3"]))
         tgt = {"key": self.key(), "table": t, "alias": None}
         scope = [(tgt["key"], self.cols_of(tgt))]
@@ -524,10 +528,12 @@ def P_stmt(sa):
             head.append(["columns", [["py", c] for c in sa["columns"]]])
         p["steps"] = head + p["steps"]
         return p
-    if k in ("update", "update_from"):
+    if k in ("update", "update_from", "update_join"):
         srcs = P_sources([sa["target"]] + ([sa["from"]] if sa["from"] else []))
         steps = [["update", [["src", sa["target"]["key"]]]]]
-        if sa["from"]:
+        if k == "update_join":
+            steps.append(["join", [["src", sa["from"]["key"]], ["enum", "JoinType", "inner"]], {}, ["on", [P_expr(sa["on"], True)]]])
+        elif sa["from"]:
             steps.append(["from_", [["src", sa["from"]["key"]]]])
         for c, e in sa["sets"]:
             steps.append(["set", [["col", sa["target"]["key"], c], P_expr(e, True)]])
@@ -679,14 +685,15 @@ def R_stmt(sa):
         if sa["columns"]:
             sql += " (" + ", ".join(Q(c) for c in sa["columns"]) + ")"
         return sql + " " + R_select(sa["select"])
-    if k in ("update", "update_from"):
+    if k in ("update", "update_from", "update_join"):
         srcs = [sa["target"]] + ([sa["from"]] if sa["from"] else [])
         qual = qualifiers(srcs)
         sql = "UPDATE " + Q(sa["target"]["table"]) + " SET " + ", ".join("%s = %s" % (Q(c), R_expr(e, qual)) for c, e in sa["sets"])
         if sa["from"]:
             sql += " FROM " + R_source(sa["from"])
-        if sa["where"] is not None:
-            sql += " WHERE " + R_expr(sa["where"], qual)
+        conds = ([sa["on"]] if sa.get("on") is not None else []) + ([sa["where"]] if sa["where"] is not None else [])
+        if conds:
+            sql += " WHERE " + " AND ".join(R_expr(c, qual) for c in conds)
         return sql
     if k == "delete":
         qual = qualifiers([sa["target"]])
@@ -862,6 +869,8 @@ def valid_case(case):
         sa = case["sa"]
         if _literal_positions(sa):
             return False
+        if sa["kind"] == "update_join" and not (isinstance(sa.get("on"), list) and sa["on"][0] == "eq" and sa["on"][1][0] == "col" and sa["on"][2][0] == "col" and sa["from"]):
+            return False  # the generator links the target's key to a column of the joined table
         ref = R_stmt(sa)
         P_stmt(sa)
         if len(case["dbs"]) < 1:
